@@ -59,6 +59,10 @@ class Peer:
         self.q = queue.Queue()
         self.stop = False
         self.unsol_sent = []      # systems in injection order
+        self.peer_requests = []   # systems of W primaries (S1F1) the application answers with send_response
+        self.app_replies = []     # systems of the S1F2 the endpoint sent
+        self.special = [0, 1, 0x7FFFFFFF, 0x80000000, 0xFFFFFFFF, 0xFFFFFFFE]   # boundary transaction ids, each used once
+        rng.shuffle(self.special)
         self.unsol_seq = itertools.count(0)
         self.link_lock = threading.Lock()   # serialises injections with the harness closing the link
         self.paused = False
@@ -76,6 +80,9 @@ class Peer:
             frames, rest = wire.parse_hsms_stream(bytes(self.buf))
             self.buf = bytearray(rest)
         for f in frames:
+            if f.stype == wire.DATA and (f.stream, f.function) == (1, 2):
+                with self.lock:
+                    self.app_replies.append(f.system)
             if f.stype == wire.DATA and (f.stream, f.function) == (2, 25):
                 try:
                     tag = bytes(e5ref.decode_all(f.body)[1])
@@ -115,6 +122,23 @@ class Peer:
                     self.unsol_sent.append(system)
                 self.rig.pipe.feed(wire.hsms_data(s, f, False, system, self.rng.randbytes(self.rng.choice([0, 3]))))
 
+    def inject_peer_request(self, system=None):
+        """A request of the peer's own (S1F1 W); the application answers it from its callback with send_response."""
+        with self.link_lock:
+            if self.paused or not self.rig.pipe.link_up:
+                return False
+            if system is None:
+                if not self.special:
+                    return False
+                system = self.special.pop()
+            with self.lock:
+                if system in self.unsol_sent:
+                    return False
+                self.unsol_sent.append(system)
+                self.peer_requests.append(system)
+            self.rig.pipe.feed(wire.hsms_data(1, 1, True, system, b""))
+        return True
+
     def _run(self):
         rng = self.rng
         batch = []
@@ -127,6 +151,8 @@ class Peer:
             if rec is not None:
                 if rng.random() < 0.3:
                     self.inject_unsolicited(rng.randint(1, 6))
+                if rng.random() < 0.15:
+                    self.inject_peer_request()
                 if pol == "immediate":
                     self.answer(rec)
                 elif pol == "twice":
@@ -158,7 +184,8 @@ class Peer:
 
 def _count_unsol(rig, peer):
     mine = set(peer.unsol_sent)
-    return sum(1 for m in list(rig.delivered) if m["system"] in mine)
+    # a late S2F26 may share its transaction id with a later request of the peer: it is a reply, not one of these primaries
+    return sum(1 for m in list(rig.delivered) if m["system"] in mine and (m["stream"], m["function"]) != (2, 26))
 
 
 def _history(ctx, inj, idx):
@@ -170,7 +197,12 @@ def _history(ctx, inj, idx):
     t3 = 0.2 if policy in ("late", "drop") else 6.0
     rig = Rig(active=False, t3=t3)
     _history.last_rig = rig
-    rig.message_hook = lambda rec: time.sleep(0.0004) if UNSOL_BASE <= rec["system"] < UNSOL_BASE + 100000 else None
+    def app_callback(rec):
+        if (rec["stream"], rec["function"], rec["wbit"]) == (1, 1, True):
+            rig.protocol.send_response(F.SecsS01F02(), rec["system"])      # what a handler does for a request of the peer
+        elif UNSOL_BASE <= rec["system"] < UNSOL_BASE + 100000:
+            time.sleep(0.0004)
+    rig.message_hook = app_callback
     if not rig.connect_and_select():
         ctx.violation("cannot-select", {"state": rig.state})
         return
@@ -226,6 +258,14 @@ def _history(ctx, inj, idx):
             inj.end()
             return
         peer.inject_unsolicited(rng.randint(0, 10))
+        peer.inject_peer_request()
+        # the two sides number their transactions independently: the peer may use the id of a request of ours that has timed out
+        by_tag_now = {r[3]: r for r in list(peer.requests)}
+        timed_out = [by_tag_now[c["tag"]][2] for c in calls if c.get("result", 0) is None and c["tag"] in by_tag_now
+                     and by_tag_now[c["tag"]][1] == rig.pipe.generation]
+        for system in timed_out[:2]:
+            if peer.inject_peer_request(system):
+                ctx.count("peer_request.reusing_system_bytes_of_a_timed_out_request")
         with peer.link_lock:
             peer.paused = True   # nothing more is put on the wire before the link is closed / the history ends
         rig.wait(lambda: _count_unsol(rig, peer) >= len(peer.unsol_sent), 5.0)
@@ -298,11 +338,11 @@ def _history(ctx, inj, idx):
                 ctx.violation("timely-reply-not-returned-to-requester", {**base, "tag": c["tag"].hex(), "reply_delay_s": round(mine[0]["delay"], 4)})
     # (4) unsolicited primaries: exactly once, in arrival order, never overlapping
     mine_unsol = set(peer.unsol_sent)
-    got = [m["system"] for m in rig.delivered if m["system"] in mine_unsol]
+    got = [m["system"] for m in rig.delivered if m["system"] in mine_unsol and (m["stream"], m["function"]) != (2, 26)]
     ctx.count("oracle.unsolicited_checked", len(peer.unsol_sent))
     if got != peer.unsol_sent:
         rig.confirm_absent(lambda: _count_unsol(rig, peer) >= len(peer.unsol_sent), 0.5)
-        got = [m["system"] for m in rig.delivered if m["system"] in mine_unsol]
+        got = [m["system"] for m in rig.delivered if m["system"] in mine_unsol and (m["stream"], m["function"]) != (2, 26)]
     if got != peer.unsol_sent:
         missing = [s for s in peer.unsol_sent if s not in got]
         dup = sorted({s for s in got if got.count(s) > 1})
@@ -313,6 +353,19 @@ def _history(ctx, inj, idx):
                                                        "log_tail": [(e[1], (hex(e[2]["system"]) if isinstance(e[2], dict) else None)) for e in rig.log[-8:]],
                                                        "missing": [hex(s) for s in missing[:5]], "duplicates": [hex(s) for s in dup[:5]],
                                                        "first_difference": next((i for i, (a, b) in enumerate(zip(got, peer.unsol_sent)) if a != b), None)})
+    # (5) requests of the peer answered by the application: one S1F2 each, carrying the request's system bytes
+    delivered_sys = {m["system"] for m in rig.delivered}
+    for system in peer.peer_requests:
+        if system not in delivered_sys:
+            continue          # reported above as lost
+        ctx.count("oracle.peer_requests_answered_by_application")
+        n = peer.app_replies.count(system)
+        if n != 1:
+            rig.confirm_absent(lambda: peer.app_replies.count(system) >= 1)
+            n = peer.app_replies.count(system)
+        if n != 1:
+            ctx.violation("application-reply-does-not-carry-the-request's-system-bytes" if n == 0 else "application-reply-sent-more-than-once",
+                          {**base, "request_system": hex(system), "S1F2_systems_seen": [hex(x) for x in peer.app_replies[-8:]]})
     if rig.max_in_callback > 1:
         ctx.violation("message-callbacks-overlap", {**base, "max_concurrent_callbacks": rig.max_in_callback,
                                                     "delivering_threads": len(rig.callback_threads)})
